@@ -65,7 +65,7 @@ def gen_case(rng):
         toks.insert(rng.randint(0, len(toks)), {"t": "label", "name": rng.choice(labels)})
     elif r < 0.2:
         mal = "label-named-like-module-symbol"
-        toks.insert(rng.randint(0, len(toks)), {"t": "label", "name": rng.choice(["modfn", "moddata", "modproxy"])})
+        toks.insert(rng.randint(0, len(toks)), {"t": "label", "name": rng.choice(["modfn", "moddata", "modproxy", AE.temp_prefix(cfg) + "mod", AE.temp_prefix(cfg) + "mod"])})
     elif r < 0.3:
         # drop a label definition: its uses become references to an unknown name
         if labels:
@@ -121,7 +121,7 @@ def analyse_names(case, chunks):
             if t["t"] == "label":
                 if t["name"] in defined and dup is None:
                     dup = (ci, t["name"])
-                if t["name"] in AE.MODULE_SYMS and shadows is None:
+                if t["name"] in AE.module_syms(case["cfg"]) and shadows is None:
                     shadows = (ci, t["name"])
                 defined.add(t["name"])
     unknown = []
@@ -130,7 +130,7 @@ def analyse_names(case, chunks):
         seen |= {t["name"] for t in c if t["t"] == "label"}
         for t in c:
             for n in mentions(t):
-                if n not in seen and n not in AE.MODULE_SYMS and n not in [u[1] for u in unknown]:
+                if n not in seen and n not in AE.module_syms(case["cfg"]) and n not in [u[1] for u in unknown]:
                     unknown.append((ci, n))
     # a label defined in a later chunk after the name was first used as unknown
     late = [(ci, n) for ci, n in unknown if n in defined]
@@ -300,7 +300,8 @@ def gen_copies(rng):
     nblocks = rng.randint(1, 4)
     n = rng.randint(1, 6)
     places = [[rng.randrange(nblocks), rng.choice([0, 1, 2, 3])] for _ in range(n)]
-    return {"copies": True, "body": body, "nblocks": nblocks, "places": places, "second": rng.randrange(len(PATCH_BODIES)) if rng.random() < 0.4 else None}
+    return {"copies": True, "body": body, "nblocks": nblocks, "places": places, "second": rng.randrange(len(PATCH_BODIES)) if rng.random() < 0.4 else None,
+            "functions": rng.randint(1, 3) if rng.random() < 0.4 else 0}
 
 
 def check_copies(ctx, case):
@@ -330,6 +331,11 @@ def check_copies(ctx, case):
         asm, temps = bodies[k % len(bodies)]
         plan.append((asm, temps))
         rc.insert_at(blocks[b], off, emodify.make_patch(asm))
+    # the same patch as the body of inserted functions: those are assembled with suffixes of their own too
+    for k in range(case.get("functions", 0)):
+        asm, temps = bodies[0]
+        plan.append((asm + "ret\n", temps))
+        rc.register_insert_function("newfn%d" % k, emodify.make_patch(asm + "ret\n"))
     try:
         rc.apply()
     except Exception as e:  # noqa: BLE001
